@@ -148,7 +148,8 @@ def _gen_block(w, f, depth, budget, st):
             block.append({"k": "apply", "sid": sid, "id": v, "arg": a})
             vars_.append(v)
         elif r < 0.93:
-            fn = w.choice(["adjoint", "ctrl", "for_loop", "cond_true", "cond_false", "prod", "prod"])
+            fn = w.choice(["adjoint", "ctrl", "for_loop", "cond_true", "cond_false", "prod", "prod", "mcm_cond",
+                           "mcm_cond_else", "adjoint_ctrl"])
             body = [_gen_gate(w) for _ in range(w.randint(1, 3))]
             block.append({"k": "fnwrap", "sid": sid, "fn": fn, "body": body, "n": w.randint(0, 3)})
         elif r < 0.95:
@@ -512,6 +513,21 @@ def run_case(case):
                                                    and {id(o) for o in res.operands} == {id(o) for o in made}):
                         viol("function_transform_records_wrong", {"fn": "prod_operands"},
                              {"expected": [g[0] for g in s["body"]], "observed": describe(res)})
+                elif fn == "mcm_cond":
+                    # a mid-circuit measurement and a body conditioned on it: the measurement, then every body
+                    # operator through its Conditional wrapper only
+                    mv = qp.measure(7)
+                    qp.cond(mv, body_fn)()
+                    expect = ["MidMeasureMP"] + [f"Conditional({g[0]})" for g in s["body"]]
+                elif fn == "mcm_cond_else":
+                    mv = qp.measure(7)
+                    g0 = s["body"][0]
+                    qp.cond(mv == 0, getattr(qp, g0[0]), qp.PauliY)(*g0[2], wires=g0[1]) if not g0[2] and len(g0[1]) == 1 \
+                        else qp.cond(mv == 0, getattr(qp, g0[0]))(*g0[2], wires=g0[1])
+                    expect = ["MidMeasureMP", f"Conditional({g0[0]})"] + (["Conditional(PauliY)"] if not g0[2] and len(g0[1]) == 1 else [])
+                elif fn == "adjoint_ctrl":
+                    qp.adjoint(qp.ctrl(body_fn, control=[6]))()
+                    expect = [None] * len(s["body"])
                 elif fn == "cond_true":
                     qp.cond(True, body_fn)()
                     expect = [g[0] for g in s["body"]]
@@ -525,8 +541,10 @@ def run_case(case):
                     fresh = [o for o in new if id(o) not in known]
                     names = [o.name for o in fresh]
                     ok = len(fresh) == len(expect) and all(e is None or e == nme for e, nme in zip(expect, names))
-                    if fn == "ctrl":
+                    if fn in ("ctrl", "adjoint_ctrl"):
                         ok = ok and all(6 in o.wires.tolist() for o in fresh)
+                    if fn == "adjoint_ctrl":
+                        ok = ok and all(nme.startswith("Adjoint(") for nme in names)
                     if not ok:
                         viol("function_transform_records_wrong", {"fn": fn},
                              {"expected": expect, "observed": names})
